@@ -170,10 +170,23 @@ public:
       }
     }
 
+    //a constructor which fails has no destructor run for it, so whatever has
+    //been allocated by then must be released here
+    struct construction_cleanup{
+      splinetable* table;
+      ~construction_cleanup(){
+        if(table)
+          table->clear();
+      }
+    } cleanup{this};
+
     // add padding dimensions
+    //these two tables exist only while this constructor runs
+    std::unique_ptr<splinetable<Alloc>> lowerPadding, upperPadding;
     {
-      auto extrapolateSpline=[](const splinetable<Alloc>* s1, const splinetable<Alloc>* s2)->splinetable<Alloc>*{
-        splinetable<Alloc>* snew = new splinetable<Alloc>();
+      auto extrapolateSpline=[](const splinetable<Alloc>* s1, const splinetable<Alloc>* s2)->std::unique_ptr<splinetable<Alloc>>{
+        std::unique_ptr<splinetable<Alloc>> owner(new splinetable<Alloc>());
+        splinetable<Alloc>* snew = owner.get();
 
         snew->ndim = s2->ndim;
 
@@ -184,6 +197,7 @@ public:
         std::copy_n(s2->nknots,s2->ndim,snew->nknots);
 
         snew->knots = snew->allocate<double_ptr>(s2->ndim);
+        std::fill(snew->knots,snew->knots+s2->ndim,nullptr);
         for(unsigned int i=0; i<s2->ndim; i++){
           snew->knots[i] = snew->allocate<double>(s2->nknots[i]+2*s2->order[i]) + s2->order[i];
           std::copy_n(s2->knots[i],s2->nknots[i],snew->knots[i]);
@@ -196,6 +210,7 @@ public:
         std::copy_n(s2->strides,s2->ndim,snew->strides);
 
         snew->extents = snew->allocate<double_ptr>(s2->ndim);
+        snew->extents[0] = nullptr;
         snew->extents[0] = snew->allocate<double>(2*s2->ndim);
         for(unsigned int i=0;i<s2->ndim; i++){
           snew->extents[i] = &snew->extents[0][2*i];
@@ -218,13 +233,15 @@ public:
           snew->get_coefficients()[i]=2*c2-c1;
         }
 
-        return(snew);
+        return(owner);
       };
 
-      tables.insert(tables.begin(),extrapolateSpline(tables[1],tables[0]));
+      lowerPadding=extrapolateSpline(tables[1],tables[0]);
+      tables.insert(tables.begin(),lowerPadding.get());
       coordinates.insert(coordinates.begin(),2*coordinates[0]-coordinates[1]);
 
-      tables.push_back(extrapolateSpline(tables[tables.size()-2],tables[tables.size()-1]));
+      upperPadding=extrapolateSpline(tables[tables.size()-2],tables[tables.size()-1]);
+      tables.push_back(upperPadding.get());
       coordinates.push_back(2*coordinates[coordinates.size()-1]-coordinates[coordinates.size()-2]);
     }
 
@@ -242,6 +259,7 @@ public:
     nknots[inputDim]=tables.size()+stackOrder+1;
 
     knots=allocate<double_ptr>(ndim);
+    std::fill(knots,knots+ndim,nullptr);
     //copy existing knots
     for(unsigned int i=0; i<inputDim; i++){
       knots[i]=allocate<double>(nknots[i]+2*order[i]) + order[i];
@@ -292,6 +310,8 @@ public:
       if(i>0)
         strides[i-1] = arraysize;
     }
+
+    cleanup.table=nullptr; //construction succeeded
 	}
 
 	splinetable(splinetable&& other):
